@@ -119,8 +119,34 @@ def run_check(prop: str, tier: str) -> int:
     for f in findings:
         if f.get("status") == "open":
             print(f"KNOWN-FINDING: property={prop} {f['id']} {f['what']} (seen {kf_seen.get(f['id'], 0)} times this run)")
+    if os.environ.get("VF_TRIAGE"):
+        clusters: dict = {}
+        for case, res, v in unlisted:
+            b = v.get("blame") or {}
+            exc = v.get("exception") or {}
+            key = (v.get("kind"), b.get("step") or v.get("step") or exc.get("type"), (exc.get("site") or {}).get("function"), (case.get("tag") or "").split("-")[0].split(":")[0].split("/")[0])
+            clusters.setdefault(key, []).append((case, res, v))
+        for key, items in sorted(clusters.items(), key=lambda kv: -len(kv[1])):
+            print(f"=== {len(items)} x {key}")
+            shown = set()
+            for case, res, v in items:
+                sig = case.get("program", "")[:80]
+                if sig in shown or len(shown) >= int(os.environ.get("VF_TRIAGE_N", "2")):
+                    continue
+                shown.add(sig)
+                b = v.get("blame") or v
+                print(f"  case {case.get('id')} tag={case.get('tag')} traits={case.get('traits')} in={case.get('in')} out={case.get('out')} layout={case.get('layout')}")
+                print("   program: " + (res.get("twin_program") or case.get("program", "")).strip().replace("\n", "\n            "))
+                for kk in ("instance", "removed", "added", "diff", "error", "exception", "stmt", "reparsed", "reason", "name", "pred", "source", "result", "event", "missing", "extra", "which", "args", "rc", "stderr"):
+                    val = v.get(kk, b.get(kk) if isinstance(b, dict) else None)
+                    if val:
+                        print(f"     {kk}: {json.dumps(val, default=str)[:600]}")
+        unlisted_sigs = len(clusters)
+        print(f"TRIAGE: {len(unlisted)} unlisted violations in {unlisted_sigs} clusters")
     written = set()
     for case, res, v in unlisted:
+        if os.environ.get("VF_TRIAGE"):
+            break
         path = _replay_path(prop, case)
         if path not in written:
             written.add(path)
